@@ -486,6 +486,11 @@ def r9_first_error_wins(run, F, D):
             guarded = False
             for a, slot in reversed(anc):
                 if a.get("k") == "If" and slot == "then":
+                    cond0 = hirq.unwrap_trivial(a["cond"])
+                    if cond0.get("k") in ("LetExpr", "Let") and str(hirq.strip_ref(cond0.get("pat", {})).get("res", "")).endswith("None") and \
+                            hirq.unwrap_trivial(cond0.get("init", {})).get("lid") == lid:
+                        guarded = True       # `if let None = slot`
+                        break
                     for c in walk(a["cond"]):
                         if c.get("k") == "MethodCall" and c.get("name") == "is_none" and hirq.unwrap_trivial(c["recv"]).get("lid") == lid:
                             # the test itself, or a conjunction that contains it (not under a negation or a disjunction)
